@@ -188,7 +188,20 @@ struct Exec {
 		std::unique_ptr<char[]> buf(new char[bufN]);
 		memset(buf.get(), 0xEE, bufN);
 		std::string what;
-		Out o = call([&] { if (peek) a.obj->Peek(buf.get(), static_cast<size_t>(n)); else a.obj->Read(buf.get(), static_cast<size_t>(n)); }, &what);
+		// fixed-size values go through the typed helpers half of the time (Peek(T&) / Read(T&) instead of the (pointer, size) forms)
+		bool typed = (n == 1 || n == 2 || n == 4 || n == 8) && ((a.pos + n) & 1) == 0;
+		Out o = call([&] {
+			if (typed) {
+				uint8_t v1 = 0; uint16_t v2 = 0; uint32_t v4 = 0; uint64_t v8 = 0;
+				switch (n) {
+				case 1: if (peek) a.obj->Peek(v1); else a.obj->Read(v1); if (bufN >= 1) memcpy(buf.get(), &v1, 1); break;
+				case 2: if (peek) a.obj->Peek(v2); else a.obj->Read(v2); if (bufN >= 2) memcpy(buf.get(), &v2, 2); break;
+				case 4: if (peek) a.obj->Peek(v4); else a.obj->Read(v4); if (bufN >= 4) memcpy(buf.get(), &v4, 4); break;
+				default: if (peek) a.obj->Peek(v8); else a.obj->Read(v8); if (bufN >= 8) memcpy(buf.get(), &v8, 8); break;
+				}
+			} else if (peek) a.obj->Peek(buf.get(), static_cast<size_t>(n)); else a.obj->Read(buf.get(), static_cast<size_t>(n));
+		}, &what);
+		if (typed) ctx.count(peek ? "probe.typed_peek" : "probe.typed_read");
 		std::string desc = std::string(peek ? "peek" : "read") + " n=" + std::to_string(n) + " at pos " + std::to_string(a.pos) + "/" + std::to_string(a.len);
 		requireOutcome(o, ok, cl("outcome", a.root ? "backend-equal" : "confined"), "C12.outcome", desc, what);
 		if (ok) {
@@ -244,7 +257,7 @@ struct Exec {
 		if (a.kind == Kind::File && !ok) { ctx.event("skip"); return; }
 		std::string what;
 		Out o = call([&] {
-			if (v == "seek") a.obj->Seek(arg);
+			if (v == "seek") { if (arg == 0 && (a.pos & 1)) a.obj->SeekBeginning(); else a.obj->Seek(arg); } // SeekBeginning is Seek(0) by another door
 			else if (v == "fwd") a.obj->SeekForward(arg);
 			else if (v == "back") a.obj->SeekBackward(arg);
 			else if (v == "begin") a.obj->SeekBeginning();
